@@ -175,7 +175,16 @@ func (r *Runner) recoveryVia(root string, first string) ev {
 	}
 	out["first"] = first
 	out["obs1"] = r.guardObs()
+	// Repair restores agreement "without modifying or deleting any object file": its file-system calls are recorded and
+	// the mutating ones aimed at an object file counted (contents alone would not show a file rewritten as it was)
+	wasRec := vfs.Recording()
+	vfs.Record(true)
+	mark := vfs.Count()
 	out["repair"] = r.guardClass(func() error { return r.db.Repair(r.proto()) })
+	if !wasRec {
+		vfs.Record(false)
+		out["repair_mut"] = objectFileMutations(vfs.Drain(), mark)
+	}
 	out["obs2"] = r.guardObs()
 	// the repaired handle must be usable: one more write-free commit, then a brand new handle
 	out["close"] = r.guardClass(func() error { return r.db.Close() })
@@ -187,6 +196,31 @@ func (r *Runner) recoveryVia(root string, first string) ev {
 		out["msg"] = r.lastMsg
 	}
 	return out
+}
+
+// objectFileMutations counts the successful mutating calls (after call number `mark`) whose target is an object file:
+// anything in a collection directory that is neither the schema nor a temporary (dot) file nor a directory operation.
+func objectFileMutations(ops []*vfs.Op, mark int) int {
+	n := 0
+	for _, o := range ops {
+		if o.Seq <= mark || !o.Mut || o.Err {
+			continue
+		}
+		switch o.Kind {
+		case "mkdir", "mkdirall", "removeall":
+			continue
+		}
+		tgt := o.Path
+		if o.Kind == "rename" || o.Kind == "link" || o.Kind == "symlink" {
+			tgt = o.Path2
+		}
+		b := filepath.Base(tgt)
+		if b == "schema.json" || strings.HasPrefix(b, ".") {
+			continue
+		}
+		n++
+	}
+	return n
 }
 
 // crashSweep materialises every crash state of the recorded call and records
@@ -219,6 +253,7 @@ type Damage struct {
 	Rm       []int  `json:"rm,omitempty"`       // remove the object file of these slots
 	Add      []Vals `json:"add,omitempty"`      // add a valid object file with a fresh uuid
 	Unindex  []int  `json:"unindex,omitempty"`  // remove these slots' entries from the serialised index
+	Live     bool   `json:"live,omitempty"`     // the handle that finds the damage is repaired and kept (no fresh handle)
 	RmSchema bool   `json:"rmschema,omitempty"` // remove schema.json
 	First    string `json:"first,omitempty"`    // the call that makes the first load afterwards: "schema" (default) | "create"
 }
@@ -352,6 +387,32 @@ func (r *Runner) damage(op *Op) {
 	first := d.First
 	if first == "" {
 		first = "schema"
+	}
+	if d.Live {
+		// the handle that FOUND the damage is repaired and stays in use (no Create, no second Open): whatever a handle
+		// sets up when a collection is loaded - the background flusher of an asynchronous collection among it - must be
+		// in place on that handle too
+		if r.t.VClock {
+			r.retireFlushers()
+		}
+		sod.LowercaseNames = r.cfg.Lc
+		r.db = sod.Open(r.root)
+		r.hands, r.handQ = map[int]*sod.Search{}, map[int][]Cmp{}
+		r.handLim, r.handRev = map[int]int{}, map[int]bool{}
+		e["live"] = true
+		e["first"] = "schema"
+		e["load"] = r.guardClass(func() error { _, err := r.db.Schema(r.proto()); return err })
+		e["obs1"] = r.guardObs()
+		vfs.Record(true)
+		mark := vfs.Count()
+		e["repair"] = r.guardClass(func() error { return r.db.Repair(r.proto()) })
+		vfs.Record(false)
+		e["repair_mut"] = objectFileMutations(vfs.Drain(), mark)
+		e["obs2"] = r.guardObs()
+		e["recs"] = r.recs
+		r.emit(e)
+		r.primeFlusher()
+		return
 	}
 	rec := r.recoveryVia(r.root, first)
 	for k, v := range rec {
